@@ -1,7 +1,8 @@
 (* C12 — Round-robin is exact and weighted round-robin is exactly proportional.
    This file holds statements only; every proof is `exact <lemma>`. *)
 From Coq Require Import List ZArith Arith Permutation.
-From RPCX Require Import Base.Cyclic Select.RoundRobin Select.RoundRobinProofs Select.SWRR Select.SWRRProofs Select.SWRREqual.
+From RPCX Require Import Base.Cyclic Select.RoundRobin Select.RoundRobinProofs Select.SWRR Select.SWRRProofs Select.SWRREqual
+  Wire.Bytes XClient.Metadata XClient.MetadataProofs.
 Import ListNotations.
 Close Scope Z_scope.
 Open Scope nat_scope.
@@ -53,6 +54,24 @@ Proof. reflexivity. Qed.
 
 (* non-vacuity: a concrete non-trivial weight vector meets the premises, and the ring is the
    familiar smooth sequence *)
+(* the weight of a server, from the raw metadata string a registry publishes for it (createWeighted with
+   url.ParseQuery and strconv.Atoi as modelled in Server/Gateway.v): the clamp of its weight field - the [parsed]
+   input of the theorems above - and never negative; metadata that does not parse, or without a readable integer
+   weight, weighs 1 *)
+Theorem C12_weight_from_raw_metadata : forall meta,
+  weight_raw meta = clamp_weight (weight_field meta) /\ (0 <= weight_raw meta)%Z.
+Proof. intro meta. split; [apply weight_raw_is_clamped_field | apply weight_raw_nonneg]. Qed.
+
+Open Scope N_scope.
+Example C12_weight_nonvacuous :
+  weight_raw [119;101;105;103;104;116;61;55] = 7%Z /\                 (* weight=7 *)
+  weight_raw [119;101;105;103;104;116;61;45;51] = 0%Z /\              (* weight=-3 *)
+  weight_raw [119;101;105;103;104;116;61;43;52] = 1%Z /\              (* weight=+4: '+' is a blank in a query string *)
+  weight_raw [119;37;54;53;105;103;104;116;61;54] = 6%Z /\            (* w%65ight=6 *)
+  weight_raw [37;122;122;38;119;101;105;103;104;116;61;52] = 1%Z.      (* %zz&weight=4: does not parse *)
+Proof. vm_compute. repeat split. Qed.
+Close Scope N_scope.
+
 Example C12_nonvacuous :
   Forall (fun w => 0 <= w)%Z [5; 1; 1]%Z /\ (0 < sumZ [5; 1; 1])%Z /\
   swrr_ring [5; 1; 1]%Z = [0; 0; 1; 0; 2; 0; 0].
@@ -64,3 +83,4 @@ Print Assumptions C12_weighted_ring_counts.
 Print Assumptions C12_weighted_window_proportional.
 Print Assumptions C12_update_is_fresh_build.
 Print Assumptions C12_equal_weights_is_round_robin.
+Print Assumptions C12_weight_from_raw_metadata.
